@@ -145,7 +145,7 @@ var corpus = []string{
 	`construct {?s "new"@[] ?o} into ?nosuch from ?a where {?s "p"@[] ?o};`,
 	`deconstruct {?s "p"@[] ?o} in ?a from ?a where {?s "p"@[] ?o};`,
 	`deconstruct {?s "p"@[] ?o . ?n "_subject"@[] ?s} in ?a, ?b from ?a, ?b where {?n "_subject"@[] ?s . ?n "_object"@[] ?o};`,
-	`deconstruct {?s "p"@[] ?o ; "q"@[] ?o} in ?a from ?a where {?s "p"@[] ?o};`,
+	`deconstruct {?s "r"@[] ?o . /u<a> "p"@[] /u<a>} in ?a, ?c from ?a where {?s "r"@[] ?o};`,
 }
 
 // ---- lexeme-level edits (space S2 and the corpus mutants) ----------------------------------
@@ -154,7 +154,7 @@ var corpus = []string{
 // not lex to the same kind (that is the point).
 
 var lexemeEdits = map[lexer.TokenType][]string{
-	lexer.ItemNode: {`/u<>`, `/<a>`, `/u<a`, `/u a>`, `_:`, `/u<a>>`, `/u<\<>`, `/_<b>`},
+	lexer.ItemNode:      {`/u<>`, `/<a>`, `/u<a`, `/u a>`, `_:`, `/u<a>>`, `/u<\<>`, `/_<b>`},
 	lexer.ItemBlankNode: {`_:`, `_:1`, `_b`, `/_<>`},
 	lexer.ItemPredicate: {`""@[]`, `"p"@[`, `"p"@[x]`, `"p"@[?t]`, `"p"@[?]`, `"p"@[2006-01-02T15:04:05Z]`,
 		`"p"@[2006-13-45T99:99:99Z]`, `"p"@[2006-01-02]`, `"p\"@[]`, `"p\\"@[]`, `"p"@[?lo,?hi]`, `"p"@ []`, `"P"@[]`},
@@ -164,8 +164,8 @@ var lexemeEdits = map[lexer.TokenType][]string{
 		`"9223372036854775808"^^type:int64`, `"1.5"^^type:int64`, `"x"^^type:int64`, `"1.5"^^type:float64`, `"NaN"^^type:float64`,
 		`"x"^^type:text`, `""^^type:text`, `"1"^^type:foo`, `"1"^^type:`, `""^^type:int64`, `"1`, `"1"`, `"true"^^type:bool`,
 		`"x"^^type:bool`, `"[1 2]"^^type:blob`, `"[300]"^^type:blob`, `"x"^^type:blob`, `"1"^^type:int64x`, `"1"^^TYPE:int64`, `"a\"b"^^type:text`},
-	lexer.ItemBinding: {`?`, `?_`, `?zz`, `? a`, `/u<a>`, `"1"^^type:int64`, `?A`},
-	lexer.ItemTime:    {`2006-01-02`, `x`, `2006-13-45T99:99:99Z`, `9999999999`, `2006-01-02T15:04:05+25:00`, `2006-01-02T15:04:05.999999999Z`},
+	lexer.ItemBinding:        {`?`, `?_`, `?zz`, `? a`, `/u<a>`, `"1"^^type:int64`, `?A`},
+	lexer.ItemTime:           {`2006-01-02`, `x`, `2006-13-45T99:99:99Z`, `9999999999`, `2006-01-02T15:04:05+25:00`, `2006-01-02T15:04:05.999999999Z`},
 	lexer.ItemFilterFunction: {`isTemporal`, `isImmutable`, `nosuch`, `LATEST`, `l8`},
 	lexer.ItemSemicolon:      {``, `;;`, `; select`},
 	lexer.ItemLimit:          {`limit limit`},
